@@ -265,6 +265,7 @@ type PropMeta struct {
 	ID          string   `json:"id"`
 	Level       string   `json:"level"`
 	Assumptions []string `json:"assumptions"`
+	Schemas     []string `json:"schemas,omitempty"` // Lean induction schemas the property's argument uses
 	Bounded     string   `json:"bounded,omitempty"`
 }
 
@@ -353,6 +354,9 @@ func cmdCheck(args []string) int {
 			solveAll([]*FuncResult{nfr}, timeoutS, false, tmpdir)
 			frs[i] = nfr
 		}
+	}
+	if pm := loadPropMeta(*verif, *prop); pm != nil && len(pm.Schemas) > 0 && *only == "" {
+		frs = append(frs, leanSchemas(*verif, pm.Schemas))
 	}
 	return report(*prop, *tier, seed, *verif, *repo, cs, l, frs, t0, *verbose, *noEvidence)
 }
